@@ -293,6 +293,16 @@ def run_shard(shard):
                     u, _ = mvdict(x.normalized().normsq())
                     if cmp_keys(u, {0: 1.0}):
                         res.violate(violation('normalized', f'{name} keys {keys} values {vals}: normalized().normsq() != 1', case, '{0: 1.0}', show(u), repro))
+                    # the identities hold for the *current* coefficients: after an in-place update through the public
+                    # values() list nothing remembered from the calls above may be served
+                    res.evals += 1
+                    x.values()[0] = x.values()[0] * 3 + 1
+                    n2b, _ = mvdict(x.norm() * x.norm())
+                    nsqb, _ = mvdict(x.normsq())
+                    ub, _ = mvdict(x.normalized().normsq())
+                    if cmp_keys(n2b, nsqb) or cmp_keys(ub, {0: 1.0}):
+                        res.violate(violation('norm:after-inplace-change', f'{name} keys {keys} values {vals}: after x.values()[0] was changed in place, norm()**2 != normsq() or normalized().normsq() != 1',
+                                              case, show(nsqb) + ' / {0: 1.0}', show(n2b) + ' / ' + show(ub), repro))
                 except Exception as e:
                     res.violate(violation('norm:raises', f'{name} keys {keys} values {vals}: {type(e).__name__}: {e}', case, '', repr(e), repro))
         res.sample({'config': name, 'function': 'norm, normalized', 'patterns': len(cands)})
